@@ -34,6 +34,7 @@ ASSUMES = [
     'is exact and timeouts can be recomputed in Q)',
 ]
 SIG_F13 = 'C08:appclock-lost-notify-window'
+SIG_INF = 'C08:inf-result-kills-clock'
 
 HEADER = ('From Coq Require Import QArith ZArith List Bool.\nImport ListNotations.\n'
           'Require Import SC3.lib.PyNum SC3.model.TaskQ SC3.model.RtClock.\nLocal Open Scope Q_scope.\n')
@@ -41,6 +42,8 @@ HEADER = ('From Coq Require Import QArith ZArith List Bool.\nImport ListNotation
 
 # --------------------------------------------------------------------------- printers
 def q(p):
+    if p[0] == 'nf':
+        raise ValueError('non-finite time %s in the trace' % p[1])
     n, d = p
     return '(%s # %d)' % (('(%d)' % n) if n < 0 else str(n), d)
 
@@ -52,7 +55,8 @@ def z(n):
 def pres(r):
     if r[0] == 'delta':
         return '(RDelta %s)' % q(r[1:3])
-    return {'other': 'ROther', 'raise': 'RRaise'}[r[0]]
+    # a non-finite number must not re-schedule (sched/sched_abs refuse inf): same as a non-number
+    return {'other': 'ROther', 'raise': 'RRaise', 'nonfinite': 'ROther'}[r[0]]
 
 
 def pev(e):
@@ -142,54 +146,81 @@ SYS_PREFIX = ['EWaitBegin None']
 
 def trace_term(r):
     """result of one scenario -> (kind, Coq term) ; raises ValueError for events outside the alphabet"""
+    fq, n1 = r.get('final_queue'), r.get('n_log1')
+
+    def snap(npre):
+        if fq is None or n1 is None:
+            return '(None : option (nat * list (Q * task))%type)'
+        return '(Some (%d%%nat, ([%s] : list (Q * task)%%type)))' % (npre, '; '.join('(%s, %s)' % (q(p), z(t)) for p, t in fq))
     if r['clock'] == 'app':
         r['_src'] = [None] * len(APP_PREFIX) + list(range(len(r['log'])))
-        return 'app', '[' + '; '.join(APP_PREFIX + [paev(e) for e in r['log']]) + ']'
+        return 'app', '([%s], %s)' % ('; '.join(APP_PREFIX + [paev(e) for e in r['log']]),
+                                      snap(len(APP_PREFIX) + (n1 or 0)))
     src = []
+    npre = len(pevs(r['log'][:n1])) if n1 is not None else 0
     if r['clock'] == 'sys':
         evs = SYS_PREFIX + pevs(r['log'], src)
         r['_src'] = [None] * len(SYS_PREFIX) + src
-        return 'clk', '(KSys, tm_id, [%s])' % '; '.join(evs)
+        return 'clk', '(KSys, tm_id, [%s], %s)' % ('; '.join(evs), snap(len(SYS_PREFIX) + npre))
     m = '(mkTM %s %s %s)' % tuple(q(x) for x in r['init_map'])
     evs = pevs(r['log'], src)
     r['_src'] = src
-    return 'clk', '(KTempo, %s, [%s])' % (m, '; '.join(evs))
+    return 'clk', '(KTempo, %s, [%s], %s)' % (m, '; '.join(evs), snap(npre))
 
 
 CLK_CHECKS = ['accepts_quiescent', 'never_early', 'exactly_once+order', 'resched_relative_to_scheduled',
-              'notify_iff_head_changed', 'no_oversleep', 'sched_relative_to_physical_now']
+              'notify_iff_head_changed', 'no_oversleep', 'sched_relative_to_physical_now',
+              'model_queue_equals_real_queue']
 BODY_CLK = '''
-Definition chk (c : kind * tmap * list event) : list bool :=
-  let '(k, m, evs) := c in
+Definition qok (k : kind) (m : tmap) (evs : list event) (x : option (nat * list (Q * task))%type) : bool :=
+  match x with
+  | None => true
+  | Some (n, expq) => match run (init k m) (firstn n evs) with
+                      | Some s => list_eqb pair_eqb (map ipair (c_q s)) expq
+                      | None => true
+                      end
+  end.
+Definition chk (c : (kind * tmap * list event * option (nat * list (Q * task)))%type) : list bool :=
+  let '(k, m, evs, x) := c in
   [accepts_quiescent k m evs; mon_never_early m None evs; mon_once [] 0 None evs; mon_resched 0 evs;
-   mon_notify [] 0 evs; mon_no_oversleep (init k m) evs; mon_sched_base m evs].
-Definition ok (c : kind * tmap * list event) : bool := forallb (fun b => b) (chk c).
+   mon_notify [] 0 evs; mon_no_oversleep (init k m) evs; mon_sched_base m evs; qok k m evs x].
+Definition ok (c : (kind * tmap * list event * option (nat * list (Q * task)))%type) : bool := forallb (fun b => b) (chk c).
 Eval vm_compute in bad_idx ok cases.
 '''
-APP_CHECKS = ['a_accepts_quiescent', 'never_early', 'resched_relative_to_present', 'exactly_once+order', 'no_oversleep']
+APP_CHECKS = ['a_accepts_quiescent', 'never_early', 'resched_relative_to_present', 'exactly_once+order', 'no_oversleep',
+              'model_queue_equals_real_queue']
 
 
 def body_app(variant, strict_oversleep):
     v = 'VFlag' if variant == 'flag' else 'VOrig'
     return '''
-Definition chk (evs : list aevent) : list bool :=
+Definition qok (evs : list aevent) (x : option (nat * list (Q * task))%%type) : bool :=
+  match x with
+  | None => true
+  | Some (n, expq) => match arun (ainit %s) (firstn n evs) with
+                      | Some s => list_eqb pair_eqb (map ipair (a_q s)) expq
+                      | None => true
+                      end
+  end.
+Definition chk (c : (list aevent * option (nat * list (Q * task)))%%type) : list bool :=
+  let '(evs, x) := c in
   [a_accepts_quiescent %s evs; a_mon_never_early None false evs; a_mon_resched None evs; a_mon_once [] 0 [] evs;
-   %s].
-Definition ok (evs : list aevent) : bool := forallb (fun b => b) (chk evs).
+   %s; qok evs x].
+Definition ok (c : (list aevent * option (nat * list (Q * task)))%%type) : bool := forallb (fun b => b) (chk c).
 Eval vm_compute in bad_idx ok cases.
-''' % (v, ('a_mon_no_oversleep (ainit %s) evs' % v) if strict_oversleep else 'true')
+''' % (v, v, ('a_mon_no_oversleep (ainit %s) evs' % v) if strict_oversleep else 'true')
 
 
 def diagnose(ctx, kind, term, variant):
     """which check fails, and where the model stops"""
     if kind == 'clk':
         txt = HEADER + 'Definition c := %s.\n' % term + BODY_CLK.replace('Eval vm_compute in bad_idx ok cases.', '') + \
-            "Eval vm_compute in chk c.\nEval vm_compute in (let '(k, m, evs) := c in first_reject (init k m) evs 0).\n"
+            "Eval vm_compute in chk c.\nEval vm_compute in (let '(k, m, evs, _) := c in first_reject (init k m) evs 0).\n"
     else:
         v = 'VFlag' if variant == 'flag' else 'VOrig'
-        txt = HEADER + 'Definition c : list aevent := %s.\n' % term + \
+        txt = HEADER + 'Definition c := %s.\n' % term + \
             body_app(variant, True).replace('Eval vm_compute in bad_idx ok cases.', '') + \
-            'Eval vm_compute in chk c.\nEval vm_compute in a_first_reject (ainit %s) c 0.\n' % v
+            'Eval vm_compute in chk c.\nEval vm_compute in a_first_reject (ainit %s) (fst c) 0.\n' % v
     rc, out = ctx.coq('diag_%d' % os.getpid(), txt, timeout=300)
     import re
     m = re.search(r'=\s*\[([^\]]*)\]\s*:\s*list bool', out, re.S)
@@ -266,6 +297,78 @@ def gen_after_raise(kind, how, idx):
             'final': 'clear', 'wait_for': [2, 3], 'before_final': 1.5, 'after_final': 0.02, 'lower_bound': True}
 
 
+def gen_edge(kind, idx):
+    """explicit edge values: delays 0 / 0.0 / -0.0 / negative / False / inf / None, results 0 / 0.0 / -0.0 / negative /
+    False / True / '' / [] / None; the number of wake-ups of every task is known exactly"""
+    tasks = {
+        '1': {'results': [['num', 'i0'], ['none']]},          # int 0: re-scheduled at the same time -> 2 wake-ups
+        '2': {'results': [['num', 'f0'], ['none']]},
+        '3': {'results': [['num', 'nf0'], ['none']]},
+        '4': {'results': [['delta', -1, 64], ['none']]},      # negative: re-scheduled in the past -> 2
+        '5': {'results': [['num', 'false'], ['none']]},       # bool is not a number -> 1
+        '6': {'results': [['num', 'true'], ['none']]},
+        '7': {'results': [['num', 'empty'], ['none']]},
+        '8': {'results': [['num', 'list'], ['none']]},
+        '9': {'results': [['none']]},                         # scheduled with inf: never
+        '10': {'results': [['none']]},                        # scheduled with None: TypeError (AppClock: 0.0)
+        '11': {'results': [['none']]},                        # scheduled with False == 0: runs once
+    }
+    th = [['sched_x', 1, 'i0'], ['sched_x', 2, 'f0'], ['sched_x', 3, 'nf0'], ['sched', 4, -1, 64], ['sched', 5, 1, 64],
+          ['sched', 6, 1, 64], ['sched', 7, 1, 32], ['sched', 8, 1, 32], ['sched_x', 9, 'inf'], ['sched_x', 10, 'none'],
+          ['sched_x', 11, 'false'], ['sleep', 150]]
+    counts = {'1': 2, '2': 2, '3': 2, '4': 2, '5': 1, '6': 1, '7': 1, '8': 1, '9': 0, '10': 1 if kind == 'app' else 0, '11': 1}
+    return {'name': '%s-edge-values' % kind, 'clock': kind, 'index': idx, 'tempo': [2, 1], 'tasks': tasks, 'threads': [th],
+            'final': 'clear', 'before_final': 0.25, 'after_final': 0.02, 'expect_counts': counts,
+            'expect_outcome': {'10': 'ok' if kind == 'app' else 'TypeError', '9': 'ok'}}
+
+
+def gen_inf_result(kind, idx):
+    """a task returns float('inf') (sched / sched_abs refuse inf: 'never'); the clock must survive and wake the next task"""
+    return {'name': '%s-inf-result' % kind, 'clock': kind, 'index': idx, 'tempo': [1, 1],
+            'tasks': {'1': {'results': [['num', 'inf']]}, '2': {'results': [['none']]}},
+            'threads': [[['sched', 1, 1, 32], ['sched', 2, 1, 8]]],
+            'final': 'clear', 'wait_for': [2], 'before_final': 1.5, 'after_final': 0.02,
+            'expect_counts': {'1': 1, '2': 1}, 'inf_result': True}
+
+
+def gen_late_parent(kind, idx):
+    """logical vs physical time: a task that runs LATE (40 ms busy body) schedules another task with delta 1/16 and
+    returns 1/32: both are relative to its SCHEDULED time, exactly"""
+    return {'name': '%s-late-parent' % kind, 'clock': kind, 'index': idx, 'tempo': [2, 1],
+            'tasks': {'1': {'results': [['delta', 1, 32], ['none']], 'nested': [[['busy', 40], ['sched', 2, 1, 16]]]},
+                      '2': {'results': [['none']]}},
+            'threads': [[['sched', 1, 1, 32]]], 'final': 'clear', 'wait_for': [2], 'before_final': 1.5,
+            'after_final': 0.02, 'logical_exact': True, 'expect_counts': {'1': 2, '2': 1}}
+
+
+def gen_ties(kind, idx):
+    """eight tasks at exactly the same time, scheduled one after the other by one thread: FIFO"""
+    return {'name': '%s-ties-fifo' % kind, 'clock': kind, 'index': idx, 'tempo': [2, 1],
+            'tasks': {str(t): {'results': [['none']]} for t in range(1, 9)},
+            'threads': [[['abs', t, 4, 64] for t in (3, 1, 4, 8, 5, 2, 7, 6)]],
+            'final': 'clear', 'wait_for': list(range(1, 9)), 'before_final': 1.5, 'after_final': 0.02,
+            'fifo': [3, 1, 4, 8, 5, 2, 7, 6], 'expect_counts': {str(t): 1 for t in range(1, 9)}}
+
+
+def gen_two_clocks(kind, idx):
+    """the SAME task object scheduled on this clock and on SystemClock: one wake-up on each; a second task scheduled
+    twice on this clock (replaced): one wake-up"""
+    return {'name': '%s-same-task-two-clocks' % kind, 'clock': kind, 'index': idx, 'tempo': [1, 1],
+            'tasks': {'1': {'results': [['none']]}, '2': {'results': [['none']]}},
+            'threads': [[['sched', 1, 1, 16], ['xsched', 1, 1, 16], ['sched', 2, 1, 8], ['sched', 2, 1, 16], ['sleep', 250]]],
+            'final': 'clear', 'before_final': 0.1, 'after_final': 0.02, 'expect_counts': {'1': 2, '2': 1},
+            'expect_threads': {'1': 2}}
+
+
+def gen_self_stop(idx):
+    """a task stops its own TempoClock during its wake-up; the pending tasks never run; the thread ends"""
+    return {'name': 'tempo-self-stop', 'clock': 'tempo', 'index': idx, 'tempo': [1, 1],
+            'tasks': {'1': {'results': [['none']], 'nested': [[['stop'], ['sched', 3, 1, 1]]]},
+                      '2': {'results': [['none']]}, '3': {'results': [['none']]}},
+            'threads': [[['sched', 1, 1, 32], ['sched', 2, 1, 1], ['sleep', 300]]],
+            'final': 'drain', 'horizon': 0.5, 'expect_dead': True, 'expect_counts': {'1': 1, '2': 0, '3': 0}}
+
+
 def gen_cancel_via(kind, via, idx):
     """clear() issued from a task of another clock: nothing that was pending may run after it returned"""
     return {'name': '%s-clear-from-%s' % (kind, via), 'clock': kind, 'index': idx, 'tempo': [2, 1],
@@ -280,13 +383,17 @@ def gen_stress(rng, kind, idx, heavy=False):
     tasks = {}
     for tid in range(1, ntasks + 1):
         nres = rng.choice([0, 0, 1, 1, 2, 3])
-        results = [['delta', rng.choice([0, 1, 1, 2, 3]), 64] for _ in range(nres)]
-        results.append(rng.choice([['none'], ['none'], ['raise'], ['raise'], ['stop'], ['str'], ['bool']]))
+        results = [rng.choice([['delta', rng.choice([0, 1, 1, 2, 3]), 64], ['delta', rng.choice([0, 1, 2]), 64],
+                               ['num', 'i0'], ['num', 'f0'], ['num', 'nf0'], ['delta', -1, 64]]) for _ in range(nres)]
+        results.append(rng.choice([['none'], ['none'], ['raise'], ['raise'], ['stop'], ['str'], ['bool'],
+                                   ['num', 'false'], ['num', 'true'], ['num', 'empty'], ['num', 'list']]))
         nested = []
         if rng.random() < 0.3:
             ops = []
             if rng.random() < 0.8:
                 ops.append(['sched', rng.randint(1, ntasks), rng.randint(0, 4), 64])
+            if rng.random() < 0.3:
+                ops.insert(0, ['busy', rng.randint(2, 15)])
             if rng.random() < 0.1:
                 ops.append(['clear'])
             if kind == 'tempo' and rng.random() < 0.4:
@@ -301,7 +408,11 @@ def gen_stress(rng, kind, idx, heavy=False):
         for _ in range(rng.randint(2, 7 if not heavy else 14)):
             x = rng.random()
             tid = rng.randint(1, ntasks)
-            if x < 0.12:
+            if x < 0.05:
+                ops.append(['sched_x', tid, rng.choice(['i0', 'f0', 'nf0', 'inf', 'false'] + (['none'] if kind == 'app' else []))])
+            elif x < 0.08:
+                ops.append(['sched', tid, -rng.randint(1, 3), 64])
+            elif x < 0.16:
                 ops.append(wrap_via(rng, kind, rng.choice([['sched', tid, rng.randint(0, 6), 64], ['clear']])
                                     if rng.random() < 0.85 else ['sched', tid, 1, 64]))
             elif x < 0.45:
@@ -408,10 +519,28 @@ def program(ctx, rng):
         for how in (('raise', 'routine') if ctx.quick else ('raise', 'routine', 'stop')):
             idx += 1
             p1.append(gen_after_raise(kind, how, idx))
+    for kind in ('sys', 'tempo', 'app'):
+        idx += 1
+        p1.append(gen_edge(kind, idx))
+        idx += 1
+        p1.append(gen_two_clocks(kind, idx)) if kind != 'sys' else None
+        if kind != 'app':
+            idx += 1
+            p1.append(gen_late_parent(kind, idx))
+            idx += 1
+            p1.append(gen_ties(kind, idx))
+    idx += 1
+    p1.append(gen_self_stop(idx))
+    idx += 1
+    p1.append(gen_inf_result('tempo', idx))
     p1.append(dict(WINDOW_SC))
     # singletons are stopped last (their threads cannot be restarted)
     idx += 1
+    p1.append(gen_inf_result('sys', idx))
+    idx += 1
     p1.append(gen_cancel('sys', idx, 'stop'))
+    idx += 1
+    p1.append(gen_inf_result('app', idx))
     idx += 1
     p1.append(gen_cancel('app', idx, 'stop'))
     procs = [p1]
@@ -521,6 +650,42 @@ def e2e(sc, r):
                     v.append(('never_early', '%s: %s called sched(%.4f s, task %d) at physical time %.4f; the task was awakened '
                               '%.4f s later, i.e. %.4f s BEFORE its time' % (sc['name'], x[0], d, x[1], x[4], ran[0] - x[4],
                                                                                d - (ran[0] - x[4]))))
+    ec = sc.get('expect_counts')
+    if ec:
+        for tid, want in ec.items():
+            got = counts.get(int(tid), 0)
+            if got != want:
+                v.append(('exactly_once', '%s: task %s was awakened %d times, expected %d (results %s)'
+                          % (sc['name'], tid, got, want, sc['tasks'][tid].get('results'))))
+    for tid, want in (sc.get('expect_outcome') or {}).items():
+        got = [x[3] for x in r['scheds'] if x[1] == int(tid) and str(x[2]).startswith('x:')]
+        if got and got[0] != want:
+            v.append(('edge_values', '%s: sched(%s) of task %s: %s, expected %s' % (sc['name'], 'None' if tid == '10' else 'inf', tid, got[0], want)))
+    for tid, want in (sc.get('expect_threads') or {}).items():
+        got = len(set(a[3] for a in aw if a[0] == int(tid)))
+        if got != want:
+            v.append(('exactly_once', '%s: task %s scheduled on two clocks was awakened by %d clock thread(s)' % (sc['name'], tid, got)))
+    if sc.get('logical_exact'):
+        tempo = Fraction(*sc.get('tempo', [1, 1])) if sc['clock'] == 'tempo' else Fraction(1)
+        l1 = [Fraction(*a[2]) for a in aw if a[0] == 1]
+        l2 = [Fraction(*a[2]) for a in aw if a[0] == 2]
+        if l1 and l2 and l2[0] != l1[0] + Fraction(1, 16) / tempo:
+            v.append(('resched_relative_to_scheduled', '%s: task 1 (scheduled for %s, running 40 ms late) called sched(1/16, task 2): '
+                      'task 2 has logical time %s, expected %s' % (sc['name'], l1[0], l2[0], l1[0] + Fraction(1, 16) / tempo)))
+        if len(l1) > 1 and l1[1] != l1[0] + Fraction(1, 32) / tempo:
+            v.append(('resched_relative_to_scheduled', '%s: task 1 returned 1/32 at logical %s (40 ms late): next logical time %s, '
+                      'expected %s' % (sc['name'], l1[0], l1[1], l1[0] + Fraction(1, 32) / tempo)))
+    if sc.get('fifo'):
+        order = [a[0] for a in aw]
+        if len(order) == len(sc['fifo']) and order != sc['fifo']:
+            v.append(('ready_popped_in_time_then_fifo_order', '%s: tasks scheduled for the same time in the order %s were awakened in '
+                      'the order %s' % (sc['name'], sc['fifo'], order)))
+    if r.get('responsive') is False:
+        v.append(('exception_isolated', '%s: the clock does not respond any more: a probe task scheduled with delay 0 after the '
+                  'scenario did not run within 10 s (thread alive: %s)' % (sc['name'], r.get('alive'))))
+    if r.get('queue_consistent') not in (True, None):
+        v.append(('queue_consistency', '%s: TaskQueue bookkeeping is inconsistent with its contents (empty() / _removed_counter / '
+                  '_entry_finder vs live entries): %s' % (sc['name'], r.get('queue_consistent'))))
     xa = sc.get('expect_after')
     if xa:
         kinds = {'tempo': ('tempo',), 'beats': ('beats_add',), 'sched': ('delta',)}[xa['op']]
@@ -533,7 +698,7 @@ def e2e(sc, r):
                                      else 'it did not run within %.1f s' % xa['bound'])))
     if sc.get('cancel_via'):
         done = [s[5] for s in r['scheds'] if s[2] == 'clear' and str(s[0]).startswith('via')]
-        late = sorted(a[0] for a in aw if done and a[1] > done[0])
+        late = sorted(a[0] for a in aw if done and a[1] > done[0] and a[0] != 0)
         if late:
             v.append(('clear_stop_cancel_all', '%s: tasks %s ran after clear() (called from a task of another clock) had returned'
                       % (sc['name'], late)))
@@ -547,10 +712,10 @@ def e2e(sc, r):
         if sc['final'] == 'stop' and r.get('alive'):
             v.append(('clear_stop_cancel_all', 'clock thread still alive after stop'))
         fd = r.get('final_done_at')
-        late = sorted(a[0] for a in aw if fd is not None and a[1] > fd)
+        late = sorted(a[0] for a in aw if fd is not None and a[1] > fd and a[0] != 0)      # 0 = the responsiveness probe
         if late:
             v.append(('clear_stop_cancel_all', 'tasks %s ran after %s() had returned' % (late, sc['final'])))
-    if r.get('alive') is False and sc.get('final') != 'stop':
+    if r.get('alive') is False and sc.get('final') != 'stop' and not sc.get('expect_dead'):
         v.append(('exception_isolated', 'the clock thread died'))
     return v
 
@@ -574,6 +739,7 @@ def correspond(ctx):
                 c.failures.append(Failure('correspondence', 'scenario %s crashed the harness: %s' % (sc['name'], r['crash'][-800:]),
                                           replay={'scenario': sc}))
                 continue
+            n_fail_before = len(c.failures)
             c.count('clock:' + sc['clock'])
             c.count('events', len(r['log']))
             c.count('client threads:%d' % len(sc['threads']))
@@ -598,7 +764,7 @@ def correspond(ctx):
             # end-to-end monitors
             for key, text in e2e(sc, r):
                 c.failures.append(Failure('search', 'end-to-end monitor %s on the real %s clock: %s' % (key, sc['clock'], text),
-                                          theorem=key, found_input=True,
+                                          theorem=key, found_input=True, signature=SIG_INF if sc.get('inf_result') else None,
                                           replay={'scenario': sc, 'awakes': r['awakes'], 'scheds': r['scheds'], 'log': r['log']}))
             # F13, deterministic
             w = r.get('window')
@@ -628,7 +794,15 @@ def correspond(ctx):
                 kind, term = trace_term(r)
             except ValueError as e:
                 c.failures.append(Failure('correspondence', 'scenario %s: %s' % (sc['name'], e), replay={'scenario': sc, 'log': r['log']}))
+                if sc.get('inf_result'):
+                    for f in c.failures[n_fail_before:]:
+                        f.signature, f.found_input = SIG_INF, True
+                        f.what = ('a task that returns float("inf") is re-scheduled at time inf and the clock thread dies in '
+                                  'Condition.wait(inf) (OverflowError): ' + f.what)
                 continue
+            if sc.get('inf_result'):
+                for f in c.failures[n_fail_before:]:
+                    f.signature, f.found_input = SIG_INF, True
             if kind == 'clk':
                 clk_items.append(term); clk_meta.append((sc, r))
             else:
@@ -699,7 +873,7 @@ def search(ctx, failures):
     found, seen = [], set()
     for f in failures:
         sc = f.replay.get('scenario') if isinstance(f.replay, dict) else None
-        if sc and not sc.get('window') and sc.get('final') != 'stop':
+        if sc and not sc.get('window') and sc.get('final') != 'stop' and not sc.get('inf_result') and not sc.get('expect_dead'):
             scs.insert(0, dict(sc, unique=sc.get('unique', False)))
     outs = run_procs(ctx, [scs], proxies=False)
     o = outs[0]
